@@ -7,6 +7,29 @@ KERNEL_NOTE = ('Trusted: Lean kernel; axioms propext/Classical.choice/Quot.sound
                'deterministic fakes on the Python side and by the recorded answers on the model side); kernel contracts are hypotheses; '
                'exact field arithmetic (IEEE rounding not modelled).')
 CHECKS = {
+ 'C18': {
+  'text': 'Proof (full): for every well-formed bipartite graph (and BipartiteGraph.__init__ always yields one) the model of Hopcroft-Karp terminates within its fuel, '
+          'returns a valid matching of maximum size, and minimum_vertex_cover returns an in-range duplicate-free cover touching every edge whose size equals the matching '
+          '(Koenig), hence minimum; its assertion never fires (13 theorems incl. hk_total, hk_maximum, mvc_total, c18_all). Tie to the code: exhaustive exact '
+          'correspondence over all edge sets up to 4x4 (5x5 slices in thorough), random graphs to 60x60, duplicates, malformed input; final internal state compared.',
+  'note': KERNEL_NOTE + ' No kernel contracts are involved in C18.',
+  'design_ref': 'DESIGN.md §7 C18',
+ },
+ 'C11': {
+  'text': 'Proof (full): for every m,n>=1, all integer charge vectors (unsorted on either side), any commutative star ring and every dense-QR oracle satisfying the QR contract '
+          'on the blocks handed to it: qr returns without error, Q.R = A, Q has orthonormal columns, both factors are block sparse under the returned charges '
+          '(sparsity for *every* oracle), D = len(qinterm) <= min(m,n), disjoint charges give the dummy factorization of the zero matrix (12 theorems; QRContract has a witness over RCLike). '
+          'Tie to the code: exact correspondence under uninterpreted QR incl. int64 input and half-integer factors.',
+  'note': KERNEL_NOTE + ' QRContract is an assumption about np.linalg.qr(mode="reduced").',
+  'design_ref': 'DESIGN.md §7 C11',
+ },
+ 'C04': {
+  'text': 'Proof (partial, growing): vdot, operator_inner_product, operator_average and operator_density_average equal the digit-indexed dense quantities for all L, d and independent '
+          'bond profiles over any commutative star ring (first argument conjugated); environment-block and local-projection theorems are listed under not_proved until they land. '
+          'Tie to the code: exact correspondence of all functions of operation.py on Gaussian-integer data.',
+  'note': KERNEL_NOTE + ' No kernel contracts are involved in C04.',
+  'design_ref': 'DESIGN.md §7 C04',
+ },
  'C12': {
   'text': 'Proof (partial): the truncation rule is proved in full for every spectrum, tolerance and every (unstable) sorting permutation over any '
           'linear ordered field: kept indices valid, discarded weight <= tol, kept >= discarded, maximality, positivity, tol=0 keeps exactly the '
